@@ -32,7 +32,7 @@ def configs(ctx):
           ('crash_d4', speca.constants(MaxDepth=4, MaxId=3, MaxCount=2, MaxDeliver=2, Clients={'w1'}, Params={'p1'}, Meas={'m1'}, Vals={'v1'}, Recycle='always',
                                        Kinds=CK - {'StopTrial', 'SetStudyState'}), 0.15),
           ('crash_suggest_d4', speca.constants(MaxDepth=4, MaxId=4, MaxCount=3, MaxDeliver=3, Params={'p1'}, Meas={'m1'}, Recycle='always', AlgoMeta=True,
-                                               Kinds={'CreateStudy', 'SuggestTrials', 'CreateTrial', 'CompleteTrial'}), 0.03)]
+                                               Kinds={'CreateStudy', 'SuggestTrials', 'CreateTrial', 'CompleteTrial'}), 0.012)]
 
 
 def tlc_crash(name, consts, d):
@@ -193,6 +193,103 @@ def judge_partial(candidates, conf, workdir, name):
   return [v[k + 1] for k in range(len(obs))]
 
 
+def large_transaction(ctx, d):
+  """A call whose writes exceed SQLite's page cache (2 MB): pages reach the file BEFORE the commit, and only the rollback
+  journal makes a crash in between harmless.  One UpdateMetadata writing ~0.9 MB on the study and on each of three trials,
+  crashed at every point; after the restart the stored metadata is that of before the call or that of after it."""
+  import crash
+  import hashlib
+  import world  # noqa: F401
+  from vizier._src.service import key_value_pb2
+  from vizier._src.service import study_pb2
+  from vizier._src.service import vizier_service
+  from vizier._src.service import vizier_service_pb2 as vs
+  from vizier.service import pyvizier as svz
+  from vizier import pyvizier as vz
+  big = 900 * 1024
+
+  def build(path):
+    svc = vizier_service.VizierServicer(database_url='sqlite:///' + path)
+    return svc
+
+  def snapshot(svc, name):
+    out = {}
+    st = svc.GetStudy(vs.GetStudyRequest(name=name))
+    out['study'] = sorted((kv.key, hashlib.sha1(kv.value.encode()).hexdigest()[:10], len(kv.value)) for kv in st.study_spec.metadata)
+    for t in svc.ListTrials(vs.ListTrialsRequest(parent=name)).trials:
+      out[t.id] = sorted((kv.key, hashlib.sha1(kv.value.encode()).hexdigest()[:10], len(kv.value)) for kv in t.metadata)
+    return out
+
+  base = os.path.join(d, 'large_base.db')
+  svc = build(base)
+  prob = vz.ProblemStatement()
+  prob.search_space.root.add_float_param('x', 0.0, 1.0)
+  prob.metric_information.append(vz.MetricInformation('m', goal=vz.ObjectiveMetricGoal.MAXIMIZE))
+  sc = svz.StudyConfig.from_problem(prob)
+  sc.algorithm = 'RANDOM_SEARCH'
+  name = svc.CreateStudy(vs.CreateStudyRequest(parent='owners/big', study=study_pb2.Study(display_name='big', study_spec=sc.to_proto()))).name
+  for i in range(3):
+    svc.CreateTrial(vs.CreateTrialRequest(parent=name, trial=study_pb2.Trial(parameters=[study_pb2.Trial.Parameter(parameter_id='x')])))
+
+  def request(tag):
+    r = vs.UpdateMetadataRequest(name=name)
+    r.delta.add(metadatum=key_value_pb2.KeyValue(key='k', value=(tag + '-study-') * (big // (len(tag) + 7))))
+    for i in range(3):
+      r.delta.add(trial_id=str(i + 1), metadatum=key_value_pb2.KeyValue(key='k', value=('%s-trial%d-' % (tag, i + 1)) * (big // (len(tag) + 8))))
+    return r
+  svc.UpdateMetadata(request('old'))
+  pre = snapshot(svc, name)
+  svc.datastore._connection.close()  # pylint: disable=protected-access
+  svc.datastore._engine.dispose()  # pylint: disable=protected-access
+  # the acknowledged result of the call
+  ref = os.path.join(d, 'large_ref.db')
+  shutil.copy(base, ref)
+  svc = build(ref)
+  svc.UpdateMetadata(request('new'))
+  post = snapshot(svc, name)
+  svc.datastore._engine.dispose()  # pylint: disable=protected-access
+  if pre == post or any(x[2] < big // 2 for x in pre['study']):
+    raise tlc.MachineryError('large-transaction scenario is vacuous')
+  points = 0
+  problems = collections.Counter()
+  k = 0
+  while True:
+    k += 1
+    run_db = os.path.join(d, 'large_run%d.db' % k)
+    shutil.copy(base, run_db)
+    svc = build(run_db)
+    inj = crash.Injector(svc, run_db, crash_at=k, image_dir=os.path.join(d, 'large_img%d' % k))
+    status, _ = inj.run(lambda: svc.UpdateMetadata(request('new')))
+    label = inj.events[-1] if inj.events else '?'
+    inj.close()
+    if status == 'returned':
+      os.unlink(run_db)
+      break
+    points += 1
+    what = None
+    try:
+      svc2 = build(inj.image)
+      got = snapshot(svc2, name)
+      svc2.datastore._engine.dispose()  # pylint: disable=protected-access
+      if got != pre and got != post:
+        what = 'torn-state'
+      elif label == 'return:update_metadata' and got != post:
+        what = 'acknowledged-but-lost'
+    except Exception as e:  # pylint: disable=broad-except
+      what = 'unreadable-after-restart'
+      got = '%s: %s' % (type(e).__name__, str(e)[:120])
+    if what:
+      problems[what] += 1
+      if problems[what] <= 2:
+        ctx.violation({'via': 'crash', 'rpc': 'UpdateMetadata', 'what': what, 'scenario': 'large-transaction'},
+                      {'kind': 'crash-large', 'point': k, 'label': label, 'observed': got if isinstance(got, str) else {str(a): b for a, b in got.items()},
+                       'before': {str(a): b for a, b in pre.items()}, 'after': {str(a): b for a, b in post.items()}})
+    shutil.rmtree(os.path.join(d, 'large_img%d' % k), ignore_errors=True)
+    os.unlink(run_db)
+  ctx.log('  large transaction (UpdateMetadata, 4 x 0.9 MB): crashed at %d points; problems: %s' % (points, dict(problems)))
+  return {'name': 'large_transaction', 'bytes_written': 4 * big, 'crash_points': points, 'problems': dict(problems)}
+
+
 def run(ctx, only=None):
   import world  # noqa: F401
   cov = ctx.coverage
@@ -251,6 +348,9 @@ def run(ctx, only=None):
       if chosen:
         i, r = chosen[len(chosen) // 2]
         ctx.sample({'config': name, 'prefix': r['hist'][:-1], 'interrupted_call': r['hist'][-1], 'chain_length': len(r['chain'])})
+    big = large_transaction(ctx, d)
+    cov['configs'].append(big)
+    crash_points += big['crash_points']
   cov['traces_validated_against_impl'] = crash_points
   cov['evaluations'] = crash_points
   cov['distinct_nontrivial'] = len(distinct)
@@ -265,5 +365,9 @@ def run(ctx, only=None):
 def replay(ctx, case):
   c = case['case']
   with tlc.Scratch('c05') as d:
+    if c.get('kind') == 'crash-large':
+      big = large_transaction(ctx, d)
+      ctx.coverage.update({'states': 1, 'transitions': 1, 'traces_validated_against_impl': big['crash_points']})
+      return
     # recompute the model's chain for this one scenario is not possible without TLC's dump: re-run the whole check instead
     run(ctx)
